@@ -95,7 +95,8 @@ Proof. exact completion_at_most_once_all. Qed.
 Print Assumptions C13_completion_at_most_once.
 
 (* "... after the pre-login event and after every outstanding message has been answered" — the
-   code as it is (Impl), every history of whole calls in which the event fires at most once, the client answers only
+   code as it is (Impl), every history (consumers of every kind, CFail = a consumer that returns
+   an error included: what a consumer returns does not matter) of whole calls in which the event fires at most once, the client answers only
    after it and the callback is not cleared ([adm]): the completion has run at most once; not at
    all before the event; exactly once as soon as the event has fired and nothing is outstanding;
    and while something is outstanding and it has not run, the callback is still kept. *)
@@ -151,3 +152,17 @@ Example C13_nonvacuous_history :
      /\ In (EBackend 2 7 (Some [9%N])) (concat (snd r))
      /\ count_cons 3 (concat (snd r)) = 1.
 Proof. exact nv_history_ok. Qed.
+
+(* Consumers that return an error (CFail): on the last answered message, on a middle one, on all —
+   everything counts as answered and the completion runs exactly once. *)
+Example C13_nonvacuous_failing_consumers :
+  let run h := run_ops Impl (init true 1) h in
+  let c h := count_completion (concat (snd (run h))) in
+  let h_last := [OSend (CPlain 1) [1%N]; OSend (CFail 2) [2%N]; OFire; OResponse 1 true []; OResponse 2 true []] in
+  let h_mid := [OSend (CFail 1) [1%N]; OSend (CPlain 2) [2%N]; OFire; OResponse 1 false []; OResponse 2 true []] in
+  let h_all := [OSend (CFail 1) [1%N]; OSend (CFail 2) [2%N]; OFire; OResponse 2 true []; OResponse 1 true []] in
+  adm false h_last = true /\ adm false h_mid = true /\ adm false h_all = true
+  /\ outstanding (fst (run h_last)) = [] /\ c h_last = 1
+  /\ outstanding (fst (run h_mid)) = [] /\ c h_mid = 1
+  /\ outstanding (fst (run h_all)) = [] /\ c h_all = 1.
+Proof. exact nv_failing_ok. Qed.
